@@ -602,7 +602,23 @@ func runCheck(ck *Check, tier universe.Tier, tierS string, nworkers int, budget 
 				defer wg.Done()
 				out := filepath.Join(tmp, fmt.Sprintf("%s-%d.json", ph.Name, s))
 				for attempt := 0; attempt < 6; attempt++ {
-					if again := runShard(ck, ph, bin, tierS, s, n, out, per, total, &mu); !again {
+					// a shard resumed after a worker death gets what is left of the phase's time, not a fresh share
+					left := per - time.Since(phaseStart)
+					if attempt > 0 && left < 15*time.Second {
+						mu.Lock()
+						if !strings.Contains(total.CapHit, "resumed shard ran out of time") {
+							if total.CapHit != "" {
+								total.CapHit += "; "
+							}
+							total.CapHit += "a resumed shard ran out of time"
+						}
+						mu.Unlock()
+						break
+					}
+					if attempt == 0 {
+						left = per
+					}
+					if again := runShard(ck, ph, bin, tierS, s, n, out, left, total, &mu); !again {
 						break
 					}
 				}
